@@ -183,4 +183,75 @@ theorem ra_hour_field_can_be_24 : ra_print 359.9999 0 = .ok (.dms 24 0 0) ∧ ¬
   · exact printsDms_iff (by decide +kernel)
   · simp [fieldsBelow]
 
+/-! ### Growth round: decimals shown, sign of the print, independence of the tolerance, split after `to_positive` -/
+
+/-- "any number of decimals": with `n_dec ≥ 0` the seconds handed to the formatter are a whole multiple of
+    `10 ** -n_dec` (so at most `n_dec` decimals are shown), for every value. -/
+theorem seconds_have_n_decimals (x : ℚ) (n : ℤ) (h : |x| < 360) (hn : 0 ≤ n) :
+    ∃ k : ℤ, (dms_fields x n).2.2.1 = (k : ℚ) / pow10 n := by
+  obtain ⟨d, m, s, sg, _, _, _, _, hs, _⟩ := dms_fields_full (L := 360) (le_refl _) (by exact_mod_cast h) n
+  rcases dms_fields_seconds_form hs hn with e | e
+  · exact ⟨0, by rw [e]; simp⟩
+  · rw [e]; exact proundn_multiple s n
+
+example : (dms_fields (12 + 34 / 60 + 56.789 / 3600) 2).2.2.1 = 5679 / pow10 2 := by decide +kernel
+
+/-- The sign a reader sees is the sign of the value: a positive Angle never prints negative and a
+    negative one never prints positive (a print of 0 has no sign), for every `n_dec`. -/
+theorem print_sign (x : ℚ) (n : ℤ) (h : |x| < 360) :
+    (0 < x → 0 ≤ readback (dms_print x n)) ∧ (x < 0 → readback (dms_print x n) ≤ 0) := by
+  obtain ⟨d, m, s, sg, D, M, S, _, _, hf, hsg, d0, _, m0, _, s0, _, hv, D0, _, _, M0, _, S0, _, _, _⟩ :=
+    dms_fields_full (L := 360) (le_refl _) (by exact_mod_cast h) n
+  obtain ⟨_, h2, _⟩ := dms_print_spec hf D0 M0 S0 hsg
+  have hd : (0 : ℚ) ≤ d := by exact_mod_cast d0
+  have hm : (0 : ℚ) ≤ m := by exact_mod_cast m0
+  have hD : (0 : ℚ) ≤ D := by exact_mod_cast D0
+  have hM : (0 : ℚ) ≤ M := by exact_mod_cast M0
+  have hb : (0 : ℚ) ≤ (d : ℚ) + (m : ℚ) / 60 + s / 3600 := by positivity
+  have hB : (0 : ℚ) ≤ (D : ℚ) + (M : ℚ) / 60 + S / 3600 := by positivity
+  rw [h2]
+  rcases hsg with e | e
+  · subst e
+    exact ⟨fun _ => by linarith, fun hx => by linarith⟩
+  · subst e
+    exact ⟨fun hx => by linarith, fun _ => by linarith⟩
+
+example : readback (dms_print 0 3) = 0 ∧ readback (dms_print (-1 / 7200000) 2) = 0 := by decide +kernel
+
+/-- The printed forms depend on the Angle's value only, not on its comparison tolerance (the carry
+    thresholds are the module constant `TOL`). -/
+theorem print_independent_of_tolerance (a b : Angle) (n : ℤ) (h : a.deg = b.deg) :
+    angle_dms_print a n = angle_dms_print b n ∧ angle_ra_print a n = angle_ra_print b n := by
+  unfold angle_dms_print angle_ra_print; rw [h]; exact ⟨rfl, rfl⟩
+
+example : angle_dms_print ⟨10 + 59.7 / 3600, 0.5⟩ 0 = angle_dms_print ⟨10 + 59.7 / 3600, TOL⟩ 0 := rfl
+
+/-- The split of the positive form is the split of the NEW value: for a negative Angle,
+    `a.to_positive().dms_tuple()` has sign +1 and recombines to `a + 360` (no stale decomposition in
+    the functional model; object-level memoisation is C20's subject). -/
+theorem split_after_to_positive (a : Angle) (h : |a.deg| < 360) (hneg : a.deg < 0) :
+    ∃ (d m : ℤ) (s : ℚ), dms_tuple (to_positive a) = (d, m, s, 1) ∧ 0 ≤ d ∧ d < 360 ∧ 0 ≤ m ∧ m < 60 ∧
+      0 ≤ s ∧ s < 60 ∧ (d : ℚ) + (m : ℚ) / 60 + s / 3600 = a.deg + 360 := by
+  have habs := abs_lt.mp h
+  have hp : (to_positive a).deg = a.deg + 360 := by
+    unfold to_positive
+    have hp : plt a.deg 0 = true := by rw [plt_iff]; exact hneg
+    have hd : ¬ (ple 360.0 (360.0 - pabs a.deg) = true) := by
+      rw [ple_iff, pabs_eq, abs_of_neg hneg]; norm_num; linarith
+    rw [if_pos hp]; simp only [hd]
+    rw [pabs_eq, abs_of_neg hneg]; norm_num; ring
+  have hr : |(to_positive a).deg| < 360 := by rw [hp, abs_lt]; constructor <;> linarith [habs.1]
+  have hpos : 0 ≤ (to_positive a).deg := by rw [hp]; linarith [habs.1]
+  have hsplit := deg2dms_of_lt hr
+  obtain ⟨d0, d1, m0, m1, s0, s1, hrec⟩ := split_spec (L := 360) (abs_nonneg _) (by exact_mod_cast hr)
+  refine ⟨_, _, _, ?_, d0, d1, m0, m1, s0, s1, ?_⟩
+  · unfold dms_tuple; rw [hsplit, if_pos hpos]
+  · rw [hrec, abs_of_nonneg hpos, hp]
+
+/-- The minutes -> degrees carry is taken when the seconds carry produced it, for either sign, and the
+    degrees field grows by one (it is the unsigned field). -/
+example : dms_fields (10 + 59 / 60 + 59.9999 / 3600) 0 = (11, 0, 0, 1) ∧
+    dms_fields (-(10 + 59 / 60 + 59.9999 / 3600)) 0 = (11, 0, 0, -1) ∧
+    dms_fields (-(10 + 59 / 60 + 59.9999 / 3600)) 4 = (10, 59, 59.9999, -1) := by decide +kernel
+
 end Pymeeus.C04
